@@ -1,7 +1,8 @@
 (* C05 - go-to-definition follows Lua's lexical scoping (DESIGN 5, binder family).
    Model: Model/Scope.v (scope tree of the traversal), Model/Resolve.v (FindMinScope / FindLocVar / IsCorrectPosition,
    text cut, globals).  Reference: Spec/LuaScope.v (environment-passing binder `bind_file`, class tags, `Laid`).
-   The code violates the full statement: classes B1-B5, each refuted here on parsed bytes (doc_end: repaired). *)
+   The code violates the full statement: classes B2 and B4, each refuted here on parsed bytes (B1, B3, B5, doc_end:
+   repaired, refuted for the code before the repair). *)
 From Coq Require Import List NArith ZArith Bool.
 From LH Require Import Base.Bytes Model.Lexer Model.Ast Model.Scope Model.Globals Model.Resolve Spec.LuaScope
   Proofs.ResolveRun Proofs.ResolveWitness Proofs.ResolveFixes.
@@ -65,17 +66,25 @@ Definition C05_define_global_full : Prop :=
 (* ---- the full statement is false for the unchanged code *)
 Theorem C05_define_local_full_refuted : ~ C05_define_local_full.
 Proof.
-  apply (full_refuted_by (chunk_of src_init_shadow) 1000%Z CB1); vm_compute; reflexivity.
+  apply (full_refuted_by (chunk_of src_for_bound) 1000%Z CB2); vm_compute; reflexivity.
 Qed.
 Print Assumptions C05_define_local_full_refuted.
 
-(* B1: `local x = 1; local x = x + 1`: the cursor on the x of `x + 1` jumps to the NEW x (line 2) *)
-Theorem C05_init_shadow_refuted :
-  has_deviation CB1 (chunk_of src_init_shadow) = true /\
-  run_define [(a_lua, src_init_shadow)] a_lua 1 10 = ALocs [(a_lua, mk_loc 2 6 2 7)] /\
+(* B1, FIXED (fixes/C05-own-initialiser.diff): `local x = 1; local x = x + 1`: the cursor on the x of `x + 1` jumped to
+   the NEW x (line 2): IsCorrectPosition only asked "declared before the cursor", plus a containment test for the three
+   initialiser shapes name / call / function.  The declaration now carries the region of its statement's initialiser
+   list (VarInfo.InitLoc) and is invisible from inside it.  Before the repair (`no_fixes`) / the code in /repo: *)
+Theorem C05_init_shadow_refuted_before_fix :
+  run_define_fx no_fixes [(a_lua, src_init_shadow)] a_lua 1 10 = ALocs [(a_lua, mk_loc 2 6 2 7)] /\
   option_map s_bind (spec_occ [(a_lua, src_init_shadow)] a_lua 1 10) = Some (BLocal (mk_loc 1 6 1 7)).
 Proof. vm_compute. repeat split. Qed.
-Print Assumptions C05_init_shadow_refuted.
+Print Assumptions C05_init_shadow_refuted_before_fix.
+Theorem C05_init_shadow_fixed :
+  has_deviation CB1 (chunk_of src_init_shadow) = false /\
+  run_define [(a_lua, src_init_shadow)] a_lua 1 10 = ALocs [(a_lua, mk_loc 1 6 1 7)] /\
+  option_map s_bind (spec_occ [(a_lua, src_init_shadow)] a_lua 1 10) = Some (BLocal (mk_loc 1 6 1 7)).
+Proof. vm_compute. repeat split. Qed.
+Print Assumptions C05_init_shadow_fixed.
 
 (* B2: `local i = 9 for i = i, 10 do end`: the bound i resolves to the loop variable *)
 Theorem C05_for_bound_refuted :
@@ -85,16 +94,19 @@ Theorem C05_for_bound_refuted :
 Proof. vm_compute. repeat split. Qed.
 Print Assumptions C05_for_bound_refuted.
 
-(* B3: `local a = 0; local a, b = 1, a`: the a of the second initialiser resolves to the new a.  The TRAVERSAL side of
-   this class is repaired (fixes/C07-multi-local-order.diff: references / rename / diagnostics are right now, no tag
-   CB3 any more); the position resolver still picks the new a: for go-to-definition the occurrence is an instance of
-   class B1 (tag CB1: a use of a name of the statement inside its initialiser list) *)
-Theorem C05_multi_local_refuted :
-  has_deviation CB1 (chunk_of src_multi_local) = true /\
-  run_define [(a_lua, src_multi_local)] a_lua 1 16 = ALocs [(a_lua, mk_loc 2 6 2 7)] /\
+(* B3, FIXED: `local a = 0; local a, b = 1, a`: the a of the second initialiser resolved to the new a.  The TRAVERSAL side
+   was repaired by fixes/C07-multi-local-order.diff (references / rename / diagnostics); the position resolver still
+   picked the new a (an instance of class B1) until fixes/C05-own-initialiser.diff *)
+Theorem C05_multi_local_refuted_before_fix :
+  run_define_fx no_fixes [(a_lua, src_multi_local)] a_lua 1 16 = ALocs [(a_lua, mk_loc 2 6 2 7)] /\
   option_map s_bind (spec_occ [(a_lua, src_multi_local)] a_lua 1 16) = Some (BLocal (mk_loc 1 6 1 7)).
 Proof. vm_compute. repeat split. Qed.
-Print Assumptions C05_multi_local_refuted.
+Print Assumptions C05_multi_local_refuted_before_fix.
+Theorem C05_multi_local_fixed :
+  run_define [(a_lua, src_multi_local)] a_lua 1 16 = ALocs [(a_lua, mk_loc 1 6 1 7)] /\
+  option_map s_bind (spec_occ [(a_lua, src_multi_local)] a_lua 1 16) = Some (BLocal (mk_loc 1 6 1 7)).
+Proof. vm_compute. repeat split. Qed.
+Print Assumptions C05_multi_local_fixed.
 
 (* B4: `local f; f = function() return f() end`: definition on the inner f finds nothing *)
 Theorem C05_forward_decl_refuted :
@@ -151,7 +163,7 @@ Proof. vm_compute. repeat split. Qed.
                              excluded program-wide is GONE since fixes/C05-for-step-order.diff);
      no_repoint P          no assignment `n = <name | call | function>` to a name that a local of the file carries while
                              declared without a value (class B4 excluded program-wide);
-     classB_ok o           the occurrence carries no class tag (B1 B2 B3 per occurrence). *)
+     classB_ok o           the occurrence carries no class tag (B2 only: B1, B3 and B5 are repaired). *)
 From LH Require Import Proofs.PositionBindBase Proofs.PositionBindShape Proofs.PositionBindFinal Proofs.PositionBindWitness.
 
 (* the statement `C05_define_local_partial_stmt` as written (guard `Laid`) is false: `Laid` does not constrain the Loc
